@@ -1131,7 +1131,7 @@ func (in *Interp) evalCall(st *State, call *ast.CallExpr, stmt bool) *T {
 	// memory / model / effects) with the parameters bound; it is accepted when all
 	// normally returning paths agree on the returned terms
 	if in.Inline != nil && callee != nil && in.Inline(callee) && in.depth < 4 {
-		if fd := c.DeclOf(callee); fd != nil && fd.Body != nil {
+		if fd := c.DeclOf(callee); fd != nil && fd.Body != nil && !loopReturns(fd) {
 			sub := st.Clone()
 			saved := sub.Vars
 			sub.Vars = map[types.Object]*T{}
@@ -1376,4 +1376,33 @@ func notT(t *T) *T {
 		}
 	}
 	return tUn("!", t)
+}
+
+// loopReturns: the function returns from inside a loop.  Loops are summarised (their
+// bodies are not followed to a fixpoint), so such a helper cannot be executed in place:
+// the early return would be lost.  It stays an opaque call.
+func loopReturns(fd *ast.FuncDecl) bool {
+	found := false
+	ast.Inspect(fd.Body, func(n ast.Node) bool {
+		var body *ast.BlockStmt
+		switch l := n.(type) {
+		case *ast.ForStmt:
+			body = l.Body
+		case *ast.RangeStmt:
+			body = l.Body
+		default:
+			return true
+		}
+		ast.Inspect(body, func(m ast.Node) bool {
+			if _, ok := m.(*ast.FuncLit); ok {
+				return false
+			}
+			if _, ok := m.(*ast.ReturnStmt); ok {
+				found = true
+			}
+			return true
+		})
+		return true
+	})
+	return found
 }
